@@ -105,6 +105,11 @@ class ConnProc:
                 elif act[0] == "dup":        # seen twice: second copy act[1] units later (fast retransmit)
                     arrivals.append((base, False))
                     arrivals.append((base + act[1] * self.gap + self.gap // 3, True))
+                elif act[0] in ("dup_merge", "dup_half"):
+                    # retransmission with other boundaries: this segment and the next one collapsed into one segment
+                    # (dup_merge), or only the first half of the segment (dup_half); same first sequence number
+                    arrivals.append((base, False))
+                    arrivals.append((base + act[1] * self.gap + self.gap // 3, act[0]))
                 elif act[0] == "dup_rto":    # lost after the tap: exact duplicate after RTO
                     arrivals.append((base, False))
                     arrivals.append((base + self.rto, True))
@@ -117,7 +122,15 @@ class ConnProc:
                     raise ValueError(act)
                 last = base
                 for dt, isdup in arrivals:
-                    s.after(dt, self.w.tap_event, self, d, dict(u, dup=isdup))
+                    u2 = dict(u, dup=bool(isdup))
+                    if isdup == "dup_merge" and "lo" in u and j + 1 < len(units) and "hi" in units[j + 1] and \
+                            units[j + 1]["hi"] - u["lo"] <= 60000:
+                        u2["hi"] = units[j + 1]["hi"]
+                        u2["reseg"] = True
+                    elif isdup == "dup_half" and "lo" in u and u["hi"] - u["lo"] >= 2:
+                        u2["hi"] = u["lo"] + (u["hi"] - u["lo"]) // 2
+                        u2["reseg"] = True
+                    s.after(dt, self.w.tap_event, self, d, u2)
                     last = max(last, dt)
                 self.pending += 1
                 s.after(last + self.lat2[d], self.unit_delivered)
@@ -218,6 +231,16 @@ def tcp_units(conn, flights):
         cuts.discard(0)
         cuts.add(n)
         cl = sorted(c for c in cuts if 0 < c <= n)
+        # no segment carries more than 32 KiB (an IP datagram holds less than 64 KiB)
+        bounded = []
+        prev = 0
+        for c in cl:
+            while c - prev > 32768:
+                prev += 32768
+                bounded.append(prev)
+            bounded.append(c)
+            prev = c
+        cl = bounded
         acts = {}
         for a in tcp.get("acts", {}).get(d, []):
             acts[a[0]] = a[1:]
@@ -404,6 +427,10 @@ def build_frame(conn, info, e, mod=None):
         payload = info["dgrams"][e["dg"]]
         if mod and "payload" in mod:
             payload = mod["payload"](payload)
+        if conn.get("udp_nocsum") and not v6 and e["d"] in conn["udp_nocsum"] and bad is None:
+            # the sender generates no UDP checksum (legal over IPv4, RFC 768): the field is transmitted as zero
+            bad = lambda c: 0
+            e["udp_nocsum"] = True
         fr = NB.frame_udp(src, dst, v6, payload, ident=e["i"], pad_to=pad_to, bad_csum=bad)
         if not mod:
             off = 14 + (40 if v6 else 20) + 6
